@@ -10,6 +10,7 @@ import Alpen.Model.Task
 import Alpen.Model.Retry
 import Alpen.Model.WorldOps
 import Alpen.Model.Import
+import Alpen.Model.Cli
 /-!
 Line-protocol driver: one operation per line on stdin, one canonical answer line on
 stdout.  Strings travel as comma-separated code points (`-` = empty string).
@@ -55,6 +56,13 @@ def decRecs {α} (f : List String → Option α) (t : String) : Option (List α)
 def decDCopy : List String → Option DCopy
   | [i, f, h, w, s, fs] => do
       pure ⟨← i.toNat?, ← f.toNat?, ← Has.ofString h, ← Wants.ofString w, ← decOptNat s, ← decOptNat fs⟩
+  | _ => none
+
+def decKCopy : List String → Option KCopy
+  | [i, f, h, w, s] => do pure ⟨← i.toNat?, ← f.toNat?, ← Has.ofString h, ← Wants.ofString w, ← decOptNat s⟩
+  | _ => none
+def decKReq : List String → Option KReq
+  | [f, a, b, c, x] => do pure ⟨← f.toNat?, ← a.toNat?, ← b.toNat?, ← decBool c, ← decBool x⟩
   | _ => none
 
 def decPNode : List String → Option PNode
@@ -170,6 +178,22 @@ def pure1 (toks : List String) : Option String :=
         | .noDetection => "noDetection" | .badAcq => "badAcq" | .duplicate => "duplicate" | .unregistered => "unregistered" | .success => "success"
       let cs := match o.copy with | none => "-" | some (h, w) => s!"{h.toString}:{w.toString}"
       pure s!"{r} completed={encBool o.requestCompleted} newAcq={encBool o.newAcq} newFile={encBool o.newFile} copy={cs} postAdd={encBool o.postAdd}"
+  | ["kclean", ib, goal, size, copies, keepf] => do
+      let cs ← decRecs decKCopy copies; let kf ← decNats keepf
+      let ids := nodeClean (← decBool ib) (fun c => kf.contains c.file) (← Wants.ofString goal) (← decOptNat size) cs
+      pure (encNats ids)
+  | ["kverify", c, h, m, copies, keepf] => do
+      let cs ← decRecs decKCopy copies; let kf ← decNats keepf
+      pure (encNats (nodeVerify (← decBool c) (← decBool h) (← decBool m) (fun c => kf.contains c.file) cs))
+  | ["kverifycancel", copies, keepf] => do
+      let cs ← decRecs decKCopy copies; let kf ← decNats keepf
+      pure (encNats (nodeVerifyCancel (fun c => kf.contains c.file) cs))
+  | ["ksync", copies, skipped, keepf, reqs, node, group] => do
+      let cs ← decRecs decKCopy copies; let sk ← decNats skipped; let kf ← decNats keepf
+      let rs ← decRecs decKReq reqs
+      pure (encNats (syncSel cs (fun f => sk.contains f) (fun f => kf.contains f) rs (← node.toNat?) (← group.toNat?)))
+  | ["cmdupd", c, f, s, y] => do
+      pure (encBool (commandUpdates (← decBool c) (← decBool f) (← decBool s) (← decBool y)))
   | ["retry", ac, tx, cl, o0, o1] => do
       let o0 ← decBool o0; let o1 ← decBool o1
       let (evs, r) := retryExecute (← decBool ac) (← decBool tx) (← decBool cl) (fun i => if i = 0 then o0 else o1)
